@@ -333,11 +333,11 @@ func (tb *LTable) RawGetString(key string) LValue {
 
 // ForEach iterates over this table of elements, yielding each in turn to a given function.
 func (tb *LTable) ForEach(cb func(LValue, LValue)) {
-	if tb.array != nil {
-		for i, v := range tb.array {
-			if v != LNil {
-				cb(LNumber(i+1), v)
-			}
+	// by index, not by range: the callback may clear or overwrite fields
+	// (Remove shifts and shortens the array) and must see current values
+	for i := 0; i < len(tb.array); i++ {
+		if v := tb.array[i]; v != nil && v != LNil {
+			cb(LNumber(i+1), v)
 		}
 	}
 	if tb.strdict != nil {
@@ -374,7 +374,9 @@ func (tb *LTable) Next(key LValue) (LValue, LValue) {
 					}
 				}
 			}
-			if tb.array == nil || index == len(tb.array) {
+			// index > len: the array part was shortened during the traversal
+			// (the key just visited was removed by Remove / table.remove)
+			if _, inHash := tb.k2i[key]; tb.array == nil || index == len(tb.array) || (index > len(tb.array) && !inHash) {
 				if (tb.dict == nil || len(tb.dict) == 0) && (tb.strdict == nil || len(tb.strdict) == 0) {
 					return LNil, LNil
 				}
